@@ -80,6 +80,8 @@ fn component(k: usize) -> Vec<u8> {
         r#"(component (core module $m (func (export "f"))) (core instance $i (instantiate $m)) (func $f (canon lift (core func $i "f"))) (export "f" (func $f)))"#,
         r#"(component (type $r (record (field "a" u8) (field "b" (list string)))) (import "t" (type (eq $r))) (import "r" (type $res (sub resource))) (import "m" (func (param "x" (borrow $res)))))"#,
         r#"(component (import "w" (component (import "i" (func)) (export "e" (instance (export "g" (func)))))) (import "mod" (core module (import "a" "b" (func)) (export "c" (func)))))"#,
+        // a sub-component that embeds a core module and has exports after it (the usual shape of an already composed component)
+        r#"(component (component $inner (core module $m (func (export "f"))) (core instance $i (instantiate $m)) (func $f (canon lift (core func $i "f"))) (export "inner-only" (func $f))) (instance $x (instantiate $inner)) (alias export $x "inner-only" (func $g)) (export "outer" (func $g)))"#,
     ];
     wat::parse_str(w[k % w.len()]).unwrap()
 }
@@ -158,8 +160,14 @@ fn main() {
             println!("C14-BOUNDED VIOLATION: Package::from_bytes PANICKED on the regression byte string {:?}", b); std::process::exit(1);
         }
     }
-    for k in 0..4 {
+    for k in 0..5 {
         let good = component(k);
+        blobs += 1;
+        match catch_unwind(AssertUnwindSafe(|| { let mut t = Types::default(); Package::from_bytes("x:y", None, good.clone(), &mut t).is_ok() })) {
+            Ok(true) => decoded += 1,
+            Ok(false) => { println!("C14-BOUNDED VIOLATION: Package::from_bytes rejects the valid component #{k} of the corpus"); std::process::exit(1); }
+            Err(_) => { println!("C14-BOUNDED VIOLATION: Package::from_bytes PANICKED on the valid component #{k} of the corpus: {:?}", good); std::process::exit(1); }
+        }
         for m in 0..(per * 20) {
             let mut b = good.clone();
             match m % 4 { 0 => { b.truncate(r.below(good.len() + 1)); } 1 => { let j = r.below(b.len()); b[j] = r.next() as u8; } 2 => { let j = r.below(b.len()); b[j] ^= 1 << r.below(8); let j2 = r.below(b.len()); b[j2] = b[j2].wrapping_add(1); } _ => { b = (0..r.below(64)).map(|_| r.next() as u8).collect(); } }
